@@ -267,9 +267,14 @@ class Text(ExcelType):
         except (ValueError, OverflowError):
             pass
         try:
-            return dateutil.parser.parse(self.value)
+            value = dateutil.parser.parse(self.value)
         except (ValueError, OverflowError):
             pass
+        else:
+            # Excel knows no time zones: "10:00Z" is not a date/time for it
+            # (and an aware datetime cannot be turned into a serial number).
+            if value.tzinfo is None:
+                return value
         raise xlerrors.ValueExcelError(
             f'Could not cast {repr(self.value)} (of type {type(self.value)} '
             f'to date/time.')
